@@ -129,6 +129,15 @@ Definition c_rename_all (l : list serde_item) : option rule :=
                           | SRenameAll v => match rule_of (scanned v) with Some r => Some r | None => acc end
                           | _ => acc end) l None.
 
+(* NamingContext::apply_naming_convention for CamelCase (call-site guard): PascalCase, then the first
+   character lowered by the caller itself; a name whose PascalCase form is empty is kept as it is *)
+Definition camel2 (s : str) : str := match pascal true s with c :: r => low c :: r | [] => s end.
+(* RenameRule::apply_to_variant (serde's variant rule), ASCII variant names *)
+Fixpoint snake_variant (first : bool) (s : str) : str :=
+  match s with
+  | [] => []
+  | c :: r => (if negb first && upperp c then ["_"%char] else []) ++ low c :: snake_variant false r
+  end.
 (* RenameRule::apply_to_field on UTF-8 bytes (ASCII-only case mapping) *)
 Definition dash (c : ascii) : ascii := if is_us c then "-"%char else c.
 Definition apply_rule (r : rule) (s : str) : str :=
@@ -136,9 +145,20 @@ Definition apply_rule (r : rule) (s : str) : str :=
   | RLower | RSnake => s
   | RUpper | RScreamingSnake => map up s
   | RPascal => pascal true s
-  | RCamel => camel s
+  | RCamel => camel2 s
   | RKebab => map dash s
   | RScreamingKebab => map dash (map up s)
+  end.
+Definition apply_variant (r : rule) (s : str) : str :=
+  match r with
+  | RPascal => s
+  | RLower => map low s
+  | RUpper => map up s
+  | RCamel => match s with c :: t => low c :: t | [] => [] end
+  | RSnake => snake_variant true s
+  | RScreamingSnake => map up (snake_variant true s)
+  | RKebab => map dash (snake_variant true s)
+  | RScreamingKebab => map dash (map up (snake_variant true s))
   end.
 Definition default_rule (cfg_case : str) : rule := match rule_of cfg_case with Some r => r | None => RCamel end.
 
@@ -152,11 +172,22 @@ Definition field_ser (g : c_cfg) (s : c_struct) (f : c_field) : str :=
   serialized (cf_name f) (c_rename (cf_serde f)) (c_rename_all (cs_serde s)) (g_field_case g).
 Definition param_ser (g : c_cfg) (c : c_cmd) (name : str) : str :=
   serialized name None (c_rename_all (cc_serde c)) (g_param_case g).
-Definition fn_ts (c : c_cmd) : str := camel (cc_name c).
+Definition fn_ts (c : c_cmd) : str := camel2 (cc_name c).
+(* compute_variant_name: explicit rename, else the variant form of the container rule, else the Rust name *)
+Definition variant_ser (s : c_struct) (f : c_field) : str :=
+  match c_rename (cf_serde f) with
+  | Some v => v
+  | None => match c_rename_all (cs_serde s) with Some r => apply_variant r (cf_name f) | None => cf_name f end
+  end.
+(* parse_enum drops variants carrying serde(skip) *)
+Definition listed_variants (s : c_struct) : list c_field := filter (fun f => negb (c_skipped (cf_serde f))) (cs_fields s).
 Definition ty_ts (c : c_cmd) : str := pascal true (cc_name c).
 (* event_name_to_function *)
-Definition us_of_dash (c : ascii) : ascii := if Ascii.eqb c "-"%char then "_"%char else c.
-Definition event_fn (name : str) : str := L "on" ++ pascal true (map us_of_dash name).
+Definition ascii_alnum (c : ascii) : bool := lowerp c || upperp c || is_digit c.
+Definition us_of_other (c : ascii) : ascii := if ascii_alnum c then c else "_"%char.
+(* every character that is not ASCII alphanumeric becomes '_' (a multi-byte character becomes several
+   underscores here, one in the code: PascalCase drops them all, so the result is the same) *)
+Definition event_fn (name : str) : str := L "on" ++ pascal true (map us_of_other name).
 
 (* ------------------------------------------------------------------ type rendering with type_mappings *)
 Fixpoint assoc (k : str) (l : list (str * str)) : option str :=
@@ -227,7 +258,7 @@ Definition zprim (p : str) (v : option vattr) (skip is_key : bool) : str :=
   else L "z.unknown() /* Unknown primitive: " ++ p ++ L " */".
 Fixpoint zr (g : c_cfg) (t : tstruct) (v : option vattr) (skip is_key : bool) : str :=
   match t with
-  | TOpt u => zr g u v false is_key ++ L ".optional()"
+  | TOpt u => zr g u v skip is_key ++ L ".optional()"
   | TPrim p => zprim p v skip is_key
   | TArr u => apply_bound (L "z.array(" ++ zr g u v true false ++ L ")") (v_len v) (skip || match v with None => true | Some _ => false end)
   | TMap k w => L "z.record(" ++ zr g k v true true ++ L ", " ++ zr g w v true false ++ L ")"
@@ -242,8 +273,20 @@ Definition param_schema (g : c_cfg) (t : qty) : str := zr g (pts (qtts t)) None 
 
 (* ------------------------------------------------------------------ command analysis (Pipeline.v functions on c_cmd) *)
 Definition c_values (c : c_cmd) : list (str * qty) := filter (fun p => negb (is_tauri_parameter_type (snd p))) (cc_params c).
+(* channel_parser.rs is_channel_segment: bare Channel, tauri::..::Channel, or ipc::Channel *)
+Definition c_channel_message (t : qty) : option qty :=
+  match t with
+  | QPath segs n true (a :: _) =>
+      if str_eqb n (L "Channel") &&
+         match segs with
+         | [] => true
+         | s0 :: rest => str_eqb s0 (L "tauri") || (str_eqb s0 (L "ipc") && match rest with [] => true | _ => false end)
+         end
+      then Some a else None
+  | _ => None
+  end.
 Definition c_channels (c : c_cmd) : list (str * qty) :=
-  flat_map (fun p => match channel_message (snd p) with Some m => [(fst p, m)] | None => [] end) (cc_params c).
+  flat_map (fun p => match c_channel_message (snd p) with Some m => [(fst p, m)] | None => [] end) (cc_params c).
 Definition nonempty {A} (l : list A) : bool := match l with [] => false | _ => true end.
 Definition any_channels (cmds : list c_cmd) : bool := existsb (fun c => nonempty (c_channels c)) cmds.
 
@@ -260,11 +303,11 @@ Definition interface_chunks (g : c_cfg) (s : c_struct) : list chunk :=
 Fixpoint enum_alts (g : c_cfg) (s : c_struct) (l : list c_field) : list chunk :=
   match l with
   | [] => []
-  | [f] => [Hole (HStr DQ) (field_ser g s f)]
-  | f :: r => Hole (HStr DQ) (field_ser g s f) :: F " | " :: enum_alts g s r
+  | [f] => [Hole (HStr DQ) (variant_ser s f)]
+  | f :: r => Hole (HStr DQ) (variant_ser s f) :: F " | " :: enum_alts g s r
   end.
 Definition enum_chunks (g : c_cfg) (s : c_struct) : list chunk :=
-  [F "export type "; Hole HTyName (cs_name s); F " = "] ++ enum_alts g s (cs_fields s) ++ [F "; "].
+  [F "export type "; Hole HTyName (cs_name s); F " = "] ++ enum_alts g s (listed_variants s) ++ [F "; "].
 Definition struct_chunks (g : c_cfg) (s : c_struct) : list chunk :=
   if cs_enum s then enum_chunks g s else interface_chunks g s.
 Definition params_iface_chunks (g : c_cfg) (c : c_cmd) : list chunk :=
@@ -304,9 +347,15 @@ Definition listener_chunks (g : c_cfg) (e : c_event) : list chunk :=
   [F "export async function "; Hole HFn (event_fn (ce_name e)); F "("; NL; F " handler: (payload: "; Hole HType (payload_text g e);
    F ") => void ): Promise<UnlistenFn> { return listen<"; Hole HType (payload_text g e); F ">("; Hole (HStr SQ) (ce_name e);
    F ", (event) => { handler(event.payload); }); } "].
+(* create_event_contexts: one listener per distinct event name, the first emit site wins *)
+Fixpoint dedup_events (seen : list str) (evs : list c_event) : list c_event :=
+  match evs with
+  | [] => []
+  | e :: r => if existsb (str_eqb (ce_name e)) seen then dedup_events seen r else e :: dedup_events (ce_name e :: seen) r
+  end.
 Definition events_file (g : c_cfg) (evs : list c_event) : cfile :=
   {| fl_prefix := [F "import { listen, type UnlistenFn, type Event } from '@tauri-apps/api/event'; import * as types from './types'; "];
-     fl_required := map (listener_chunks g) evs; fl_optional := [] |}.
+     fl_required := map (listener_chunks g) (dedup_events [] evs); fl_optional := [] |}.
 
 (* ------------------------------------------------------------------ index.ts *)
 Definition index_file (has_events : bool) : cfile :=
@@ -321,8 +370,9 @@ Definition zod_struct_chunks (g : c_cfg) (s : c_struct) : list chunk :=
     (* generate_enum_schema: format!, values joined by ", " (a trailing comma is token-different, so join exactly) *)
     [F "export const "; Hole HTyName (cs_name s ++ L "Schema"); F " = z.enum(["] ++
     (fix go (l : list c_field) : list chunk :=
-       match l with [] => [] | [f] => [Hole (HStr DQ) (field_ser g s f)]
-       | f :: r => Hole (HStr DQ) (field_ser g s f) :: F ", " :: go r end) (cs_fields s) ++ [F "]); "]
+       match l with [] => [] | [f] => [Hole (HStr DQ) (variant_ser s f)]
+       | f :: r => Hole (HStr DQ) (variant_ser s f) :: F ", " :: go r end) (listed_variants s) ++
+    [F "]); export type "; Hole HTyName (cs_name s); F " = z.infer<typeof "; Hole HKey (cs_name s ++ L "Schema"); F ">; "]
   else
     [F "export const "; Hole HTyName (cs_name s ++ L "Schema"); F " = z.object({"] ++
     flat_map (fun f => if c_skipped (cf_serde f) then [] else [F " "; Hole HKey (field_ser g s f); F ": "; Hole HZ (field_schema g f); F ","; NL]) (cs_fields s) ++
@@ -462,7 +512,7 @@ Definition bad_class (h : hclass) (s : str) : option string :=
   match h with
   | HKey => Some "C01-bare-key"%string
   | HFn => if is_ts_identifier s then Some "C01-reserved-fn"%string
-           else if starts (L "on") s && any_char ":/" s then Some "C01-event-fn"%string else None
+           else None
   | HType | HZ => if has_sub "::" s then Some "C01-path-leak"%string
                   else if has_sub "types.[" s then Some "C01-prefix-tuple"%string
                   else if any_char "<>()," s then Some "C01-half-generic"%string else None
